@@ -4,15 +4,15 @@
 # 2. apply the patch to /repo, run ./check <Cnn> --tier <tier>, revert /repo
 # prints one summary line: CONFIRM <Cnn>-<mK> tests=<ok|FAIL> demo_with=<rc> demo_without=<rc> check=<CAUGHT|MISSED> ...
 C="$1"; M="$2"; T="${3:-quick}"
-W=/tmp/w4/$C; D=$W/mutants/$M
+WD=${WDIR:-/tmp/w4}; W=$WD/$C; D=$W/mutants/$M
 export CARGO_NET_OFFLINE=true
 cd "$W" || exit 9
 git checkout -q -- .
 git apply "$D/patch.diff" || { echo "CONFIRM $C-$M patch-does-not-apply"; exit 3; }
 tests=$(cargo test --workspace --offline --lib 2>&1 | grep -E "^test result" | awk '{p+=$4; f+=$6} END {print p"/"f}')
-( cd "$D/demo" && timeout 900 bash ./run.sh > /tmp/w4/$C-$M-with.log 2>&1 ); rc_with=$?
+( cd "$D/demo" && timeout 900 bash ./run.sh > $WD/$C-$M-with.log 2>&1 ); rc_with=$?
 git checkout -q -- .
-( cd "$D/demo" && timeout 900 bash ./run.sh > /tmp/w4/$C-$M-without.log 2>&1 ); rc_without=$?
+( cd "$D/demo" && timeout 900 bash ./run.sh > $WD/$C-$M-without.log 2>&1 ); rc_without=$?
 rm -rf "$D/demo/target" "$W/target"
 # now /repo
 if [ -n "$SKIP_CHECK" ]; then echo "CONFIRM $C-$M tests=$tests demo_with=$rc_with demo_without=$rc_without check=SKIPPED"; exit 0; fi
